@@ -7,6 +7,7 @@
 //!          9 arr![e0; LEN] (LEN a const item, bare path)   10 box_arr![e0; LEN]
 //!          11 const B: Box<_> = box_arr![c0,..]   12 arr![e0; {LEN}]   13 box_arr![e0; {LEN}]
 //!   etype  0 u32   1 String   2 Ck (Clone logs)   3 Zs (zero-sized Copy)
+//!   via    7: elements borrowing from temporaries of their own expression (u32 behind a reference)
 //!   via    1 here: every case is a generated program compiled with rustc against the rlib cargo
 //!          built from the current crate tree (so a case that does not compile is an
 //!          observable, not a build failure); via 0 = the same invocations written in Rust
@@ -97,6 +98,21 @@ fn case_body(c: &[i128]) -> String {
             2 => format!("type {al} = {nty}; let a: GenericArray<{t}, _> = arr![{x}; {al}]; observe(0, &a)"),
             4 => format!("type {al} = {nty}; const A: GenericArray<{t}, {nty}> = arr![{cx}; {al}]; observe(0, &A)"),
             _ => format!("type {al} = {nty}; let a: Box<GenericArray<{t}, _>> = box_arr![{x}; {al}]; observe(1, &a)"),
+        };
+    }
+    // via 7: every element borrows from a temporary its own expression creates (`&*Box::new(..)`), and the array is
+    // consumed within the same statement -- accepted for the native literal, so for the macros too (where a
+    // temporary is dropped depends on how the expansion nests the element expression)
+    if via == 7 {
+        let r = |i: usize| format!("&*Box::new(e::<u32>({}))", i);
+        let rlist = (0..count).map(|i| r(i)).collect::<Vec<_>>().join(", ");
+        return match form {
+            0 => format!("let o = observe(0, &arr![{rlist}{commas}]); o"),
+            2 => format!("let o = observe(0, &arr![{}; {nty}]); o", r(0)),
+            3 => format!("let o = observe(0, &arr![{}; {count}]); o", r(0)),
+            6 => format!("let o = observe(1, &*box_arr![{rlist}{commas}]); o"),
+            7 => format!("let o = observe(1, &*box_arr![{}; {nty}]); o", r(0)),
+            _ => format!("let o = observe(1, &*box_arr![{}; {count}]); o", r(0)),
         };
     }
     match form {
@@ -333,6 +349,16 @@ fn generated_cases(thorough: bool) -> Vec<Vec<i128>> {
             for form in [2i128, 4, 7] {
                 v.push(vec![form, n, 0, 0, via]);
             }
+        }
+    }
+    // elements that borrow from temporaries of their own expression, the array used within the statement
+    for n in [0i128, 1, 3, 16] {
+        for form in [0i128, 2, 3, 6, 7, 8] {
+            // an empty list has no element to take the element type from
+            if n == 0 && (form == 0 || form == 6) {
+                continue;
+            }
+            v.push(vec![form, n, 0, 0, 7]);
         }
     }
     // box_arr! is not usable in a const
